@@ -158,6 +158,10 @@ class MTypeBool(MTypeBase):
 
     @classmethod
     def new_node(cls, value: T.Optional[str] = None) -> BaseNode:
+        if isinstance(value, str):
+            if value.lower() not in {'true', 'false'}:
+                raise RewriterException(f'Invalid boolean value "{value}"')
+            value = value.lower() == 'true'
         return BooleanNode(Token('', '', 0, 0, 0, None, bool(value)))
 
     @classmethod
